@@ -165,6 +165,7 @@ func runCheck(id, tier, repo, verif string, writeEvidence bool) int {
 	seed := int64(0)
 	fmt.Sscan(os.Getenv("VERIF_SEED"), &seed)
 	P, err := loadProgram(repo, verif)
+	currentTier = tier
 	cr := &checkRun{P: P, ps: ps, tier: tier, seed: seed, start: start, timeout: 20000}
 	if tier == "thorough" {
 		cr.timeout = 60000
